@@ -507,9 +507,12 @@ class MeshRegion:
             self.equilibriumRegion.resetNonorthogonalOptions(nonorthogonal_settings)
 
         def surface_vec(i_contour, contour, lower):
-            psi_sep = self.meshParent.equilibrium.psi_sep[0]
-            contour_is_separatrix = (
+            # A disconnected double null has two separatrices. The contour on either of
+            # them is shared by two radially adjacent regions, which must both space the
+            # points on it in the same way.
+            contour_is_separatrix = any(
                 numpy.abs((contour.psival - psi_sep) / psi_sep) < 1.0e-9
+                for psi_sep in self.meshParent.equilibrium.psi_sep
             )
 
             if contour_is_separatrix:
